@@ -31,12 +31,22 @@ func (s Suite) Pair(p1, p2 kyber.Point) kyber.Point {
 func (s Suite) ValidatePairing(p1, p2, p3, p4 kyber.Point) bool {
 	a, b := p1.(*G1Elt), p2.(*G2Elt)
 	c, d := p3.(*G1Elt), p4.(*G2Elt)
-	out := bls12381.ProdPairFrac(
-		[]*bls12381.G1{&a.inner, &c.inner},
-		[]*bls12381.G2{&b.inner, &d.inner},
-		[]int{1, -1},
-	)
-	return out.IsIdentity()
+	// A pair with the identity in either slot contributes the identity of GT.
+	// It must not reach ProdPairFrac, whose batched affine conversion divides
+	// by the product of all z-coordinates and is wrong as soon as one is zero.
+	var g1s []*bls12381.G1
+	var g2s []*bls12381.G2
+	var signs []int
+	if !a.inner.IsIdentity() && !b.inner.IsIdentity() {
+		g1s, g2s, signs = append(g1s, &a.inner), append(g2s, &b.inner), append(signs, 1)
+	}
+	if !c.inner.IsIdentity() && !d.inner.IsIdentity() {
+		g1s, g2s, signs = append(g1s, &c.inner), append(g2s, &d.inner), append(signs, -1)
+	}
+	if len(g1s) == 0 {
+		return true
+	}
+	return bls12381.ProdPairFrac(g1s, g2s, signs).IsIdentity()
 }
 
 func (s Suite) Read(_ io.Reader, _ ...any) error {
